@@ -985,8 +985,13 @@ func (x *Exec) applyContract(st *State, fc *FuncContract, names []string, tys []
 		if cl.Hidden {
 			continue // proved in the callee's body, not revealed to callers (keeps caller queries small)
 		}
-		t := x.evalBool(cl.Expr, envPost)
-		x.assume(st, t)
+		// a clause that cannot be read at a call site (it mentions a local of the callee) is not used
+		// there: fewer facts for the caller, never more
+		if t, ok := x.evalBoolLenient(cl.Expr, envPost); ok {
+			x.assume(st, t)
+		} else {
+			x.ledger["postcondition of "+key+" not usable at call sites (mentions the callee's locals): "+cl.Text] = true
+		}
 	}
 	return res
 }
